@@ -23,10 +23,13 @@ def tempo_change_is_continuous(clock, value, s2):
 
 
 def etempo_change_is_continuous(clock, value, s2):
+    bs0 = clock._base_seconds
+    bb0 = clock._base_beats
+    t0 = clock._tempo
     clock.etempo(value)
-    # the pair (beats, seconds) at the instant of the change is on both maps
+    # the instant of the change, and the beat the OLD map gives for it
     s = clock._base_seconds
-    b = clock._base_beats
+    b = (s - bs0) * t0 + bb0
     return (clock.secs2beats(s) == b and clock.beats2secs(b) == s
             and clock.secs2beats(s2) - b == value * (s2 - s))
 
